@@ -52,9 +52,11 @@ def _stop_api(tree):
         raise PinError("COUNT_REPS is no longer a string literal")
     out += _str("countReps", cr.value, "`COUNT_REPS`")
     # class attributes
-    sid = _int_const(class_constant(tree, "SnowfakeryApplication", "starting_id"), "starting_id")
+    sidn = class_constant(tree, "SnowfakeryApplication", "starting_id")
+    if not (isinstance(sidn, ast.Constant) and sidn.value is None):
+        raise PinError("class attribute starting_id is no longer `None` (modelled: unset until the first boundary)")
     rc = _int_const(class_constant(tree, "SnowfakeryApplication", "rep_count"), "rep_count")
-    out += lean_def("startingIdInit", [], "Int", f"({sid} : Int)", doc=f"starting_id = {sid}")
+    out += "/-- `starting_id = None` -/\ndef startingIdInit : Option Int :=\n  none\n"
     out += lean_def("repCountInit", [], "Int", f"({rc} : Int)", doc=f"rep_count = {rc}")
     app = find_class(tree, "SnowfakeryApplication")
     # __init__: self.stopping_criteria = stopping_criteria or StoppingCriteria(COUNT_REPS, 1)
@@ -81,13 +83,32 @@ def _stop_api(tree):
     ep = find_func(app, "ensure_progress_was_made")
     body = _body(ep)
     kinds = [type(s).__name__ for s in body]
-    if kinds != ["If", "Assign", "If", "Assign"]:
+    if kinds != ["If", "Assign", "If", "If", "Assign"]:
         raise PinError(f"ensure_progress_was_made: statement skeleton changed: {kinds}")
     out += _str("progressGuard", ast.unparse(body[0].test), "guard of the early `return` of ensure_progress_was_made")
     if len(body[0].body) != 1 or not isinstance(body[0].body[0], ast.Return) or body[0].orelse:
         raise PinError("ensure_progress_was_made: the guard no longer just returns")
     out += _str("progressLastUsed", ast.unparse(body[1]), "where ensure_progress_was_made reads the last id")
-    stalled = body[2]
+    # first boundary: `if self.starting_id is None: self.starting_id = id_manager.start_ids.get(T, 1) - 1`
+    first = body[2]
+    out += _str("progressFirstGuard", ast.unparse(first.test), "guard of the first-boundary initialisation")
+    if first.orelse or len(first.body) != 1 or not isinstance(first.body[0], ast.Assign) \
+            or ast.unparse(first.body[0].targets[0]) != "self.starting_id":
+        raise PinError("ensure_progress_was_made: first-boundary branch no longer just assigns self.starting_id")
+    fv = first.body[0].value
+    if not (
+        isinstance(fv, ast.BinOp) and isinstance(fv.left, ast.Call)
+        and ast.unparse(fv.left.func) == "id_manager.start_ids.get" and len(fv.left.args) == 2
+        and ast.unparse(fv.left.args[0]) == "self.stopping_tablename"
+    ):
+        raise PinError("ensure_progress_was_made: initial starting_id is no longer `start_ids.get(T, <default>) <op> <k>`")
+    out += lean_def("progressStartDefault", [], "Int",
+                    f"({_int_const(fv.left.args[1], 'default start id (progress)')} : Int)", doc=ast.unparse(fv.left))
+    tr0 = ExprTranslator({"start": "start"})
+    out += lean_def("initialStartingId", ["start"], "Int",
+                    tr0.tr(ast.BinOp(left=ast.Name(id="start", ctx=ast.Load()), op=fv.op, right=fv.right)),
+                    doc=ast.unparse(first.body[0]) + "   (start := the .get(...) call)")
+    stalled = body[3]
     if stalled.orelse or len(stalled.body) != 1 or not isinstance(stalled.body[0], ast.Raise):
         raise PinError("ensure_progress_was_made: the stalled branch no longer just raises")
     exc_ = stalled.body[0].exc
@@ -98,9 +119,9 @@ def _stop_api(tree):
         {"self.starting_id": "starting_id"},
     )
     tr = ExprTranslator({"last_used_id": "last_used_id"})
-    if ast.unparse(body[3].targets[0]) != "self.starting_id":
+    if ast.unparse(body[4].targets[0]) != "self.starting_id":
         raise PinError("ensure_progress_was_made: last statement no longer assigns self.starting_id")
-    out += lean_def("newStartingId", ["last_used_id"], "Int", tr.tr(body[3].value), doc=ast.unparse(body[3]))
+    out += lean_def("newStartingId", ["last_used_id"], "Int", tr.tr(body[4].value), doc=ast.unparse(body[4]))
     # check_if_finished
     cf = find_func(app, "check_if_finished")
     body = _body(cf)
